@@ -20,8 +20,8 @@ theorem c12_get_set_nil (c : Chain) (k : Key) (h : c.keys.Nodup) : (c.set k none
 theorem c12_get_set_other (c : Chain) (k k' : Key) (v : Option Val) (h : k' ≠ k) :
     (c.set k v).get k' = c.get k' := by
   cases v with
-  | none => exact get_strip_ne c h
-  | some v => simp [Chain.set, Ne.symm h, get_strip_ne c h]
+  | none => exact get_strip_of_ne c h
+  | some v => simp [Chain.set, Ne.symm h, get_strip_of_ne c h]
 
 /-- the one-link-per-key invariant is preserved by every set, so it holds after any history -/
 theorem c12_nodup_set (c : Chain) (k : Key) (v : Option Val) (h : c.keys.Nodup) : (c.set k v).keys.Nodup := by
